@@ -294,6 +294,11 @@ add("C15", "fixed", "render:include-not-disabled:inside-inherited-block",
     [{"kind": "render", "call_kind": "plain", "call": "{% render 'p' %}", "body": [["read", "a"]], "mid_loop": False, "globals": {"g1": "G1", "g2": "G2"}, "variants": [{"binds": [], "withs": [], "loopvar": "c", "mid_loop": False}],
       "probe_disabled": True, "include_wrappers": [], "include_call": "{% render 'pchild' %}", "async": False}], "efe752a")
 
+add("C19", "fixed", "global-not-reported:in-main",
+    "static analysis added a captured name to the template scope before visiting the capture block, so a reference to that name inside its own capture block "
+    "('{% capture s %}{{ s.first }}{% endcapture %}'), which reads the outer value, was missing from analysis.globals",
+    [c19("{% capture s %}[{{ s.first }}]{% endcapture %}{{ s }}", {}, {"s": ["GS"]}), c19("{% liquid\n capture k\n echo k.x\n endcapture\n%}", {}, {"k": {"x": 1}})], "73500ff")
+
 if __name__ == "__main__":
     # further entries are appended by tools/mkfindings.py from triaged replay files and kept in findings_extra.json
     extra_path = os.path.join(VERIF, "tools", "findings_extra.json")
